@@ -15,7 +15,7 @@
      calib <seed> <k> <bursts>
          same run, prints the observed maxima of the S4 statistics instead of judging them
          (used once, by hand, to produce tools/c09_calibration.json).
-   <thresholds> = peak,decay,reconv,fecratio,decay2,fecframe  (floats; from tools/props/C09_calib.json)
+   <thresholds> = peak,decay,reconv,fecratio,decay2,fecframe,reconvw  (floats; from tools/props/C09_calib.json)
 
    S4 oracles (on the implementation, thresholds calibrated on the unchanged tree):
      duration   requested duration returned for every concealment / FEC call      (do_call)
@@ -26,6 +26,8 @@
      fecframe   every frame rebuilt from LBRR data: rms error <= fecframe * (max(frame rms, concealment error) + 5e-3)
                 (stereo streams whose width keeps changing are included)
      reconv     400 ms after packets resume, rms(lossy - lossfree) <= reconv * rms(lossfree) + 2e-3
+     reconvw    soft burst / pause / loud onset streams, loss at the end of the soft burst: EVERY 5 ms window from 400 ms after the
+                last loss to the end (>= 1 s later, across the onset): rms(lossy - lossfree) <= reconvw * max(rms(lossfree), 0.02) + 2e-3
      range      every received packet decodes with the encoder's final range, whatever was lost before (incl. streams
                 that switch SILK -> CELT -> SILK inside the enumerated loss window)
      lbrr       opus_packet_has_lbrr == the LBRR flag silk_Decode decodes from the packet
@@ -68,9 +70,34 @@ static void speech_gen(speech *s, float *out, int N, int ch)
    }
 }
 
+/* soft burst -> pause -> loud onset (sig 2): a steady voiced sound at level a_soft that decays over the last 100 ms before
+   T1, near-silence until T2, then the same kind of sound at level a_loud.  A loss at the end of the soft burst is followed
+   by frames that are NOT louder than the concealment; the onset, long after the loss, must come out as in the loss-free
+   decoder. */
+static struct { double T1, T2, a_soft, a_loud, f0; double ph; double nz; vrng r; } ONS;
+static void onset_gen(float *out, int N, int ch, long start48)
+{
+   int i, h, c;
+   for (i = 0; i < N; i++) {
+      double t = (start48 + i) / 48000.0, a, v = 0, f0 = ONS.f0 * (1.0 + 0.03 * sin(2 * M_PI * 3.1 * t));
+      if (t < ONS.T1 - 0.1) a = ONS.a_soft;
+      else if (t < ONS.T1) a = ONS.a_soft * (0.25 + 0.75 * (ONS.T1 - t) / 0.1);
+      else if (t < ONS.T2) a = 0;
+      else a = ONS.a_loud;
+      ONS.ph += 2 * M_PI * f0 / 48000.0; if (ONS.ph > 2 * M_PI) ONS.ph -= 2 * M_PI;
+      for (h = 1; h <= 18; h++) {
+         double fh = h * f0, w = 1.0 / h * (1.0 / (1.0 + (fh - 600) * (fh - 600) / (200.0 * 200.0)) + 0.5 / (1.0 + (fh - 1700) * (fh - 1700) / (300.0 * 300.0)) + 0.05);
+         v += w * sin(h * ONS.ph);
+      }
+      ONS.nz = 0.6 * ONS.nz + 0.4 * (((int)vbelow(&ONS.r, 2001) - 1000) / 1000.0);
+      v = a * 0.8 * v + (2e-4 + 0.02 * a) * ONS.nz;
+      for (c = 0; c < ch; c++) out[i * ch + c] = (float)(c ? 0.85 * v : v);
+   }
+}
+
 /* ------------------------------------------------------------------ configurations */
 typedef struct { int mode, bw, dur, bitrate, fec, ench, Fs, ch, shape, gain, sig, sw; } lcfg;
-/* sig 1: stereo width cycle; sw 1: the encoder is switched SILK -> CELT -> SILK inside the loss window (redundant frames both ways) */
+/* sig 1: stereo width cycle; sig 2: soft burst / pause / loud onset (ONS); sw 1: the encoder is switched SILK -> CELT -> SILK inside the loss window (redundant frames both ways) */
 /* dur in 2.5 ms units */
 static const lcfg BASE[] = {
    { MODE_SILK_ONLY, OPUS_BANDWIDTH_WIDEBAND,      8, 24000, 1, 1, 48000, 1, -1, 0 },
@@ -102,8 +129,8 @@ typedef struct {
    int D;                     /* packet duration in samples at cfg.Fs */
 } stream_t;
 
-static struct { double peak, decay, reconv, fecratio, decay2, fecframe; } TH = { 1e9, 1e9, 1e9, 1e9, 1e9, 1e9 };
-static struct { double peak, decay, reconv, fecratio, decay2, fecframe; long npeak, ndecay, ndecay2, nreconv, nfec, nfecframe, nrange, nlbrr, nshape[4], nsess, nmode[3], nsw, nm2s, nedge; } OBS;
+static struct { double peak, decay, reconv, fecratio, decay2, fecframe, reconvw; } TH = { 1e9, 1e9, 1e9, 1e9, 1e9, 1e9, 1e9 };
+static struct { double peak, decay, reconv, fecratio, decay2, fecframe, reconvw; long nreconvw, nonset, nstuck; long npeak, ndecay, ndecay2, nreconv, nfec, nfecframe, nrange, nlbrr, nshape[4], nsess, nmode[3], nsw, nm2s, nedge; } OBS;
 static int g_calib;
 static double g_efec, g_eplc;      /* over the whole run: FEC vs PLC error energy on frames where PLC fails */
 
@@ -152,7 +179,7 @@ static int make_stream(const lcfg *c, vrng *r, int n, stream_t *S)
          opus_encoder_ctl(enc, OPUS_SET_BITRATE(hi ? 160000 : c->bitrate));
          opus_encoder_ctl(enc, OPUS_SET_BANDWIDTH(hi ? OPUS_BANDWIDTH_FULLBAND : OPUS_BANDWIDTH_WIDEBAND));
       }
-      speech_gen(&sp, in, N, c->ench);
+      if (c->sig == 2) onset_gen(in, N, c->ench, (long)i * N); else speech_gen(&sp, in, N, c->ench);
       len = opus_encode_float(enc, in, N, buf, sizeof buf);
       if (len <= 0) break;
       S->pkt[i] = (unsigned char *)malloc(len); memcpy(S->pkt[i], buf, len); S->len[i] = len;
@@ -217,6 +244,7 @@ static void lossy_run(const lcfg *c, const stream_t *S, const unsigned char *los
    float *out = (float *)calloc((size_t)n * D * ch, sizeof(float));
    int fmt = vchance(r, 70) ? FMTF : vchance(r, 50) ? FMT16 : FMT24;
    int last_loss = -1, first_loss = -1; double pre_level = 0, pre_rms = 0;
+   if (c->sig == 2) fmt = FMTF;
    if (c->gain) opus_decoder_ctl(A, OPUS_SET_GAIN(c->gain));
    OBS.nsess++; OBS.nshape[shape]++;
    for (i = 0; i < n; i++) {
@@ -311,6 +339,20 @@ static void lossy_run(const lcfg *c, const stream_t *S, const unsigned char *los
          judge("reconv", (d - 2e-3 > 0 ? d - 2e-3 : 0) / (lv > 1e-3 ? lv : 1e-3), &OBS.reconv, TH.reconv, "100 ms ending %.2f s after the last loss: rms(lossy-lossfree) %.5f, rms(lossfree) %.5f", since, d, lv);
       }
    }
+   if (i == n && last_loss >= 0 && c->sig == 2 && fmt == FMTF) {
+      /* long horizon: EVERY 5 ms window from 400 ms after the last loss to the end of the stream (>= 1 s later, across the
+         pause and the onset) is as in the loss-free decoder */
+      long w = c->Fs / 200, s0 = (long)(last_loss + 1) * D + (long)(0.4 * c->Fs), total = (long)n * D, q; double worst = 0, wd = 0, wl = 0, wt = 0;
+      for (q = s0; q + w <= total; q += w) {
+         double d = rmsdiff(out + (size_t)q * ch, S->ref + (size_t)q * ch, w * ch), lv = rms(S->ref + (size_t)q * ch, w * ch);
+         double v = (d - 2e-3 > 0 ? d - 2e-3 : 0) / (lv > 0.02 ? lv : 0.02);
+         if (v > worst) { worst = v; wd = d; wl = lv; wt = (double)(q - (long)(last_loss + 1) * D) / c->Fs; }
+      }
+      if (total - s0 >= c->Fs) {
+         OBS.nreconvw++;
+         judge("reconvw", worst, &OBS.reconvw, TH.reconvw, "5 ms window %.3f s after the last loss (packet %d): rms(lossy-lossfree) %.5f, rms(lossfree) %.5f", wt, last_loss, wd, wl);
+      }
+   }
    free(out); opus_decoder_destroy(A);
 }
 
@@ -401,6 +443,34 @@ static void run_burst(vrng *r, int idx)
    free_stream(&S);
 }
 
+/* soft burst / pause / onset sessions: every loss pattern over a window of packets around the end of the soft burst */
+static void run_onset(vrng *r, int idx)
+{
+   static const struct { int base, dur, Fs, ch, ench; } OC[] = {
+      { 0, 8, 48000, 1, 1 }, { 1, 8, 16000, 2, 1 }, { 4, 8, 48000, 2, 1 }, { 2, 4, 24000, 1, 2 }, { 0, 16, 16000, 1, 1 }, { 5, 4, 12000, 1, 2 }, { 4, 8, 24000, 1, 2 },
+   };
+   int o = idx % 7; lcfg c = BASE[OC[o].base]; stream_t S; int D, n, k, p0, p, i; unsigned char lost[MAXPK]; double e1 = 0, e2 = 0;
+   c.dur = OC[o].dur; c.Fs = OC[o].Fs; c.ch = OC[o].ch; c.ench = OC[o].ench; c.fec = 0; c.sig = 2; c.sw = 0; c.gain = 0;
+   memset(&ONS, 0, sizeof ONS);
+   ONS.r.s = vnext(r); ONS.T1 = 0.45 + vbelow(r, 150) / 1000.0; ONS.T2 = ONS.T1 + 0.3 + vbelow(r, 400) / 1000.0;
+   ONS.a_soft = 0.03 + vbelow(r, 40) / 1000.0; ONS.a_loud = 0.35 + vbelow(r, 250) / 1000.0; ONS.f0 = 110 + vbelow(r, 120);
+   D = c.dur * (c.Fs / 400);
+   n = (int)((ONS.T2 + 1.05) * c.Fs) / D + 1;
+   if (n > MAXPK) return;
+   S.sw0 = n + 10;
+   if (!make_stream(&c, r, n, &S)) { free_stream(&S); return; }
+   OBS.nonset++;
+   k = c.dur >= 8 ? 4 : 5;
+   p0 = (int)((ONS.T1 - 0.10) * c.Fs) / D + (int)vbelow(r, 3);
+   if (p0 < 3) p0 = 3;
+   for (p = 1; p < (1 << k); p++) {
+      memset(lost, 0, sizeof lost);
+      for (i = 0; i < k; i++) lost[p0 + i] = (p >> i) & 1;
+      lossy_run(&c, &S, lost, n, (int)vbelow(r, 2), r, &e1, &e2, 0);
+   }
+   free_stream(&S);
+}
+
 int main(int argc, char **argv)
 {
    vrng r; int k, bursts, i;
@@ -410,7 +480,7 @@ int main(int argc, char **argv)
       r.s = strtoull(argv[2], 0, 10) * 0xD1342543DE82EF95ULL + 0x632BE59BD9B4E019ULL; r.s ^= vnext(&r) >> 7;   /* not a shift of another seed's Weyl sequence */ k = atoi(argv[3]); bursts = atoi(argv[4]);
       if (k < 1) k = 1; if (k > 14) k = 14;
       if (!g_calib) {
-         if (argc < 6 || sscanf(argv[5], "%lf,%lf,%lf,%lf,%lf,%lf", &TH.peak, &TH.decay, &TH.reconv, &TH.fecratio, &TH.decay2, &TH.fecframe) != 6) { fprintf(stderr, "thresholds?\n"); return 64; }
+         if (argc < 6 || sscanf(argv[5], "%lf,%lf,%lf,%lf,%lf,%lf,%lf", &TH.peak, &TH.decay, &TH.reconv, &TH.fecratio, &TH.decay2, &TH.fecframe, &TH.reconvw) < 6) { fprintf(stderr, "thresholds?\n"); return 64; }
          G.quiet = argc >= 7 && !strcmp(argv[6], "quiet");
       } else G.quiet = 1;
       for (i = 0; i < NBASE; i++) {
@@ -420,13 +490,14 @@ int main(int argc, char **argv)
       }
       { lcfg c = BASE[12]; run_fecscan(&c, &r); c = BASE[13]; run_fecscan(&c, &r); c = BASE[0]; run_fecscan(&c, &r); c = BASE[11]; c.sig = 1; run_fecscan(&c, &r); }
       for (i = 0; i < bursts; i++) run_burst(&r, i);
+      for (i = 0; i < 4 + bursts / 3; i++) run_onset(&r, i);
       if (g_eplc > 0 && OBS.nfec >= 30)
          judge("fecgain", g_efec / g_eplc, &OBS.fecratio, TH.fecratio, "sum err(FEC)^2 = %.3e, sum err(PLC)^2 = %.3e over %ld frames whose successor carries LBRR and on which concealment fails", g_efec, g_eplc, OBS.nfec);
       printf("# loss seed=%s k=%d bursts=%d sessions=%ld calls=%ld witnesses=%ld shapes=%ld/%ld/%ld/%ld range=%ld lbrr=%ld fecframes=%ld/%ld packets(silk/hybrid/celt)=%ld/%ld/%ld modeswitches=%ld mono2stereo_bursts=%ld side_flag_edges=%ld\n", argv[2], k, bursts,
              OBS.nsess, G.n_calls, G.n_w, OBS.nshape[0], OBS.nshape[1], OBS.nshape[2], OBS.nshape[3], OBS.nrange, OBS.nlbrr, OBS.nfec, OBS.nfecframe,
              OBS.nmode[0], OBS.nmode[1], OBS.nmode[2], OBS.nsw, OBS.nm2s, OBS.nedge);
-      printf("# stats peak=%.4f(n=%ld) decay=%.5f(n=%ld) decay2=%.5f(n=%ld) reconv=%.4f(n=%ld) fecratio=%.4f fecframe=%.4f(n=%ld)\n", OBS.peak, OBS.npeak, OBS.decay, OBS.ndecay,
-             OBS.decay2, OBS.ndecay2, OBS.reconv, OBS.nreconv, OBS.fecratio, OBS.fecframe, OBS.nfecframe);
+      printf("# stats peak=%.4f(n=%ld) decay=%.5f(n=%ld) decay2=%.5f(n=%ld) reconv=%.4f(n=%ld) fecratio=%.4f fecframe=%.4f(n=%ld) reconvw=%.4f(n=%ld,onset_sessions=%ld)\n", OBS.peak, OBS.npeak, OBS.decay, OBS.ndecay,
+             OBS.decay2, OBS.ndecay2, OBS.reconv, OBS.nreconv, OBS.fecratio, OBS.fecframe, OBS.nfecframe, OBS.reconvw, OBS.nreconvw, OBS.nonset);
       return 0;
    }
    fprintf(stderr, "usage: c09_loss loss <seed> <k> <bursts> <peak,decay,reconv,fecratio> [quiet] | calib <seed> <k> <bursts>\n");
